@@ -591,7 +591,7 @@ fn generate(rng: &mut Rng, tier: &str, w: &mut CaseWriter) {
         }
         (rng.0 ^ 0xD1B5_4A32_D192_ED03).wrapping_mul(inv)
     };
-    let (n_rt, n_hdr, n_wr, n_pr) = if thorough { (6000, 6000, 12000, 16000) } else { (350, 400, 900, 1200) };
+    let (n_rt, n_hdr, n_wr, n_pr) = if thorough { (5000, 5000, 10000, 14000) } else { (350, 400, 900, 1200) };
     // fixed, hand-picked cases first
     {
         let refs = vec![b"chr1".to_vec(), b"chr2".to_vec()];
@@ -632,6 +632,12 @@ fn generate(rng: &mut Rng, tier: &str, w: &mut CaseWriter) {
         if mutate {
             strip_floats(&mut s);
         }
+        // the parse oracle table is the inverse of the writer's rendering, which is not injective
+        // on non-finite values (every NaN payload prints as "NaN"): keep those out of pr cases
+        s.data.retain(|(_, v)| match v {
+            Val::Arr('f', xs) => xs.iter().all(|b| f32::from_bits(*b as u32).is_finite()),
+            _ => true,
+        });
         let header = header_of_refs(&refs);
         let line = match guarded(std::panic::AssertUnwindSafe(|| sam_write_record(&header, &to_record_buf(&s)))) {
             Outcome::Done(Ok(t)) => t,
@@ -647,7 +653,9 @@ fn generate(rng: &mut Rng, tier: &str, w: &mut CaseWriter) {
         let mut i = 0u64;
         while b < (1u64 << 32) {
             if i % 3 == seed % 3 {
-                w.push("fsw", vec![b.to_string(), chunk.to_string()]);
+                // positive patterns exhaustively; of each negative chunk the first quarter
+                let n = if b < (1u64 << 31) { chunk } else { chunk / 4 };
+                w.push("fsw", vec![b.to_string(), n.to_string()]);
             }
             b += chunk;
             i += 1;
